@@ -23,7 +23,9 @@ RULE = (
     "single: the exhaustive table pbt/ref/params.py (35 parameters x their must-accept / must-reject values + "
     "'absent'); combined: generated legal pipelines (1-7 steps, suffixes) where every optional parameter is "
     "independently omitted, set to a must-accept value or (0-2 of them) to a must-reject value, on mono- and multiband "
-    "metadata; full: generated input sections on GeoTIFFs. Non-trivial = >= 1 parameter on/next to a boundary or of a "
+    "metadata; reuse: 2-4 such pipelines (independent, or a permutation / a shortened copy of an earlier one, accepted or "
+    "rejected) checked one after the other on ONE machine object and compared with a fresh machine; full: generated "
+    "input sections on GeoTIFFs. Non-trivial (reuse) = >= 2 accepted configurations with different step lists; (others) = >= 1 parameter on/next to a boundary or of a "
     "wrong type, or >= 2 optional parameters omitted; distinct = distinct canonical payload."
 )
 ASSUMPTIONS = [
@@ -327,6 +329,79 @@ def combined_body(ctx: Ctx, p: dict) -> None:
 
 # ---------------------------------------------------------------------------------------------------------------
 @st.composite
+def reuse_cases(draw):
+    """several configurations checked one after the other with ONE machine object"""
+    good = combined_cases().filter(lambda c: not c["bad"] and c["band_ok"])
+    first = draw(good)
+    seq = [first]
+    for _ in range(draw(st.integers(1, 3))):
+        how = draw(st.sampled_from(["fresh", "permute", "drop", "fresh"]))
+        if how == "fresh":
+            seq.append(draw(good if draw(st.integers(0, 3)) else combined_cases()))
+            continue
+        base = copy.deepcopy(seq[draw(st.integers(0, len(seq) - 1))])
+        names = [n for n, _ in base["steps"]]
+        i_d = names.index("disparity")
+        if how == "permute":
+            cv, post = base["steps"][1:i_d], base["steps"][i_d + 1:]
+            cv = list(draw(st.permutations(cv))) if cv else cv
+            post = list(draw(st.permutations(post))) if post else post
+            base["steps"] = [base["steps"][0]] + cv + [base["steps"][i_d]] + post
+        else:
+            kinds = [n.split(".")[0] for n in names]
+            fed = {c.get("interval_indicator") for _, c in base["steps"]} | {c.get("ambiguity_indicator") for _, c in base["steps"]}
+            cand = [i for i, k in enumerate(kinds) if k in ("aggregation", "filter", "refinement", "validation", "multiscale")]
+            if not any(c.get("filter_method") == "median_for_intervals" for _, c in base["steps"]):
+                cand += [i for i, k in enumerate(kinds) if k == "cost_volume_confidence"]
+            if cand:
+                del base["steps"][draw(st.sampled_from(cand))]
+        base["how"] = how
+        seq.append(base)
+    return {"seq": seq}
+
+
+def reuse_body(ctx: Ctx, p: dict) -> None:
+    from pandora.check_configuration import check_pipeline_section
+    from pandora.state_machine import PandoraMachine
+
+    shared = PandoraMachine()
+    outs = []
+    for k, c in enumerate(p["seq"]):
+        steps = [[n, dec(cfg)] for n, cfg in c["steps"]]
+        bands = ["r", "g", "b"][:c["nb"]] if c["nb"] > 1 else None
+        md = metadata(bands, right_bands=c.get("right_bands"))
+        tag = f"check #{k + 1} on one machine, steps={steps} bands={bands}"
+        res = []
+        for m in (PandoraMachine(), shared):
+            user = {"pipeline": {n: copy.deepcopy(cfg) for n, cfg in steps}}
+            try:
+                res.append((True, check_pipeline_section(user, md[0], md[1], m)))
+            except Exception as exc:  # noqa: BLE001
+                res.append((False, exc))
+        (ok_f, r_f), (ok_s, r_s) = res
+        ctx.judged += 1
+        if ok_f != ok_s:
+            ctx.violation("C05/acceptance-depends-on-earlier-checks", f"{tag}: fresh machine {'accepts' if ok_f else 'rejects'}, "
+                                                                      f"used machine {'accepts' if ok_s else 'rejects: ' + str(r_s)[:100]}")
+            continue
+        if not ok_s:
+            # only a successful check is promised to leave the machine reusable: go on with a new one
+            shared = PandoraMachine()
+            outs.append(None)
+            continue
+        got = list(r_s["pipeline"])
+        if got != [n for n, _ in steps]:
+            ctx.violation("C05/steps-reordered-or-dropped", f"{tag}: {got}")
+        elif not same(r_s, r_f):
+            ctx.violation("C05/checked-configuration-depends-on-earlier-checks", f"{tag}: {r_s['pipeline']} vs fresh {r_f['pipeline']}")
+        outs.append(got)
+    acc = [o for o in outs if o is not None]
+    classes = [f"accepted{len(acc)}of{len(outs)}"] + sorted({c.get("how", "fresh") for c in p["seq"][1:]})
+    ctx.case(p, nontrivial=bool(len(acc) >= 2 and any(a != acc[0] for a in acc[1:])), classes=classes)
+
+
+# ---------------------------------------------------------------------------------------------------------------
+@st.composite
 def full_cases(draw):
     nodata = draw(st.sampled_from(["omit", -9999, 0, 255, "NaN"]))  # the input section documents int or NaN
     return {"nodata_left": nodata, "nodata_right": draw(st.sampled_from(["omit", -9999, 7, "NaN"])),
@@ -412,5 +487,6 @@ def full_body(ctx: Ctx, p: dict) -> None:
 CHECKS = [
     Check("single", single_body, enumerate=enumerate_single, exhaustive=True, budget={"quick": (4, 0), "thorough": (4, 0)}),
     Check("combined", combined_body, strategy=combined_cases, budget={"quick": (8, 80), "thorough": (16, 3000)}),
+    Check("reuse", reuse_body, strategy=reuse_cases, budget={"quick": (4, 60), "thorough": (16, 1500)}),
     Check("full", full_body, strategy=full_cases, budget={"quick": (4, 25), "thorough": (8, 400)}),
 ]
